@@ -1169,6 +1169,15 @@ impl Manifest {
         let manifest: Manifest =
             serde_json::from_str(&contents).context("Failed to parse manifest JSON")?;
 
+        // Segment names are unique by construction. A repeated name means the file was damaged
+        // (e.g. one flipped digit turning the newest segment's name into an older one's), and
+        // replaying it would silently drop the segment that is no longer listed.
+        for (i, segment) in manifest.wal_segments.iter().enumerate() {
+            if manifest.wal_segments[..i].contains(segment) {
+                bail!("MANIFEST lists WAL segment {} more than once", segment);
+            }
+        }
+
         Ok(manifest)
     }
 
